@@ -21,6 +21,22 @@ class C02(Spec):
             "is tried at every reachable current version 0..4. non-trivial = at least one accepted and one refused versioned write; distinct by trace hash")
     assumptions = ["interleavings are covered by the schedule stage (see level_note)"]
 
+    def extra_stage(self, tier, seed):
+        """two clients at once: compare-and-set must stay atomic under every lock-level interleaving"""
+        from vlib import sched
+        pre = kvgen.setup() + ["SESS 4", "C 4 use-db t tok", "C 4 watch a", "C 1 set a 0"]
+        tail = ["C 1 get-safe a", "C 2 get-safe a"]
+        P = [("cas-vs-cas-same-version", pre, (1, "set-safe a 1 A"), (2, "set-safe a 1 B"), tail),
+             ("cas-vs-cas-next-version", pre, (1, "set-safe a 1 A"), (2, "set-safe a 2 B"), tail),
+             ("cas-vs-plain-set", pre, (1, "set-safe a 1 A"), (2, "set a B"), tail),
+             ("plain-vs-plain", pre, (1, "set a A"), (2, "set a B"), tail),
+             ("cas-vs-increment", pre, (1, "set-safe a 1 5"), (2, "increment a"), tail),
+             ("increment-vs-increment", pre, (1, "increment a"), (2, "increment a 10"), tail),
+             ("cas-vs-remove", pre, (1, "set-safe a 1 A"), (2, "remove a"), tail),
+             ("cas-on-absent-key", kvgen.setup(), (1, "set-safe n 0 A"), (2, "set-safe n 0 B"), ["C 1 get-safe n"])]
+        # compare-and-set is about replies and stored state; the order of notifications is C03's
+        return sched.stage("C02", P, tier, seed, parts=("reply-A", "reply-B", "later-replies", "state"))
+
     def corpus(self):
         pre = kvgen.setup()
         return [("inc-resets-version", pre + ["C 1 set-safe k 7 x", "C 1 get-safe k", "C 1 increment k", "C 1 get-safe k", "C 1 set-safe k 8 y"]),
